@@ -51,6 +51,7 @@ func init() {
 			obs = append(obs, filterObs(c.NoReadAhead(), func(o core.Ob) bool { return strings.Contains(o.Key, "packet") || o.Key == "scope" })...)
 			obs = append(obs, c.CountingWrappers("net/packet")...)
 			obs = append(obs, c.FixedBitSetSize()...)
+			obs = append(obs, c.ReflectSliceLength("net/packet.(Ary).ReadFrom")...)
 			return obs
 		},
 	}
@@ -88,6 +89,8 @@ func init() {
 			obs = append(obs, c.BitWidthInverse()...)
 			obs = append(obs, c.PaletteConfig()...)
 			obs = append(obs, c.BitStorageFixSibling()...)
+			obs = append(obs, c.BitStorageDerivedRefreshed()...)
+			obs = append(obs, c.PaletteSizeBound("level")...)
 			return obs
 		},
 	}
@@ -110,6 +113,7 @@ func init() {
 			obs = append(obs, c.InitOrder("level", "level/block", "level/biome", "level/component", "level/block/states")...)
 			obs = append(obs, c.ResizeWidth()...)
 			obs = append(obs, c.PaletteReadResets()...)
+			obs = append(obs, c.PaletteSizeBound("level")...)
 			return obs
 		},
 	}
@@ -122,6 +126,7 @@ func init() {
 			obs = append(obs, c.JSONCustomCodec()...)
 			obs = append(obs, c.TranslateArgTypes()...)
 			obs = append(obs, c.OptFlags("chat")...)
+			obs = append(obs, c.OptFieldsNilWhenAbsent("chat")...)
 			obs = append(obs, c.RuneTruncation("chat")...)
 			obs = append(obs, c.ShortFormCoversFields("chat")...)
 			obs = append(obs, c.StringIndexGuards(pkgPred("chat"))...)
@@ -129,6 +134,7 @@ func init() {
 			obs = append(obs, c.StringVarIndexGuards(pkgPred("chat"))...)
 			obs = append(obs, c.ConvertedStructTags("chat")...)
 			obs = append(obs, c.SignedArrayTargets("chat")...)
+			obs = append(obs, c.LoopDecodeTargets("chat")...)
 			return obs
 		},
 	}
@@ -137,10 +143,12 @@ func init() {
 		Run: func(c *Ctx) []core.Ob {
 			obs := c.Schema()
 			obs = append(obs, c.HandlerSort()...)
+			obs = append(obs, c.ErrorsAsForms("server", "bot", "net")...)
 			obs = append(obs, c.DispatchOrder()...)
 			obs = append(obs, c.CompressionSwitch()...)
 			obs = append(obs, c.OfflineUUID()...)
 			obs = append(obs, c.ReceiveBufferPerPacket()...)
+			obs = append(obs, c.PutAfterRetain("bot")...)
 			obs = append(obs, c.Pools("net/packet")...)
 			obs = append(obs, c.DrainBeforeClose("net/queue")...)
 			obs = append(obs, c.LengthPrefixes("net/packet")...)
